@@ -6,6 +6,7 @@ THEOREM_NOTE = ("Props/C05.lean (+ Lemmas/Shape*): under the history hypotheses 
                 "levels; push_screen_modal returns only after its level was closed, which only the close (or failed setup) of the modal entry or its replacement requests; "
                 "while it is open nothing beneath the modal entry is refreshed or drawn and the entries beneath stay in place"
                 ' After F11 NoErr is needed only for C05_levels_match_modals (C05_*_after_fix).')
+HANG_IS_VIOLATION = "pushing a screen as modal returns to the caller once it was closed / the application continues: the implementation hangs on a session the model finishes"
 ASSUMPTIONS = ASSUME_SESSION + ["known findings K1 (second close before the innermost _mainloop regained control) and K2 (close_loop drains pending signals of the closing level: the parent is processed inside the nested loop) are excluded by the history hypotheses, evaluated by the model per case and printed as KNOWN-FINDING"]
 RULE = ("tame and app sessions with modal pushes from input, refresh, show_all, prompt, closed and from modal screens, 5..30 typed lines inside; oracle: between the call and the return "
         "of push_screen_modal every setup/refresh/show/prompt/input event happens with the stack higher than at the call, closed() never pops below it, and at the return the entries "
